@@ -14,12 +14,12 @@ import (
 // Behaviour-preserving source transformations, used only to test the checker for robustness
 // (a rule that fires on such a copy is a false alarm in waiting). They operate on a scratch copy.
 //
-//   rename-locals : every local variable, parameter, receiver and named result of the SDK packages gets a new name
-//   shift-lines   : a comment block is inserted at the top of every file (all line numbers move)
-//   invert-if     : `if c {A} else {B}` becomes `if !(c) {B} else {A}`
-//   hoist-init    : `if x := f(); c {…}` becomes `{ x := f(); if c {…} }`
-//   wrap-else     : `if c {…; return}; rest` becomes `if c {…; return} else {rest}`
-//   swap-operands : `a == b` / `a != b` comparisons are mirrored (b == a), `a < b` becomes `b > a`, etc.
+//	rename-locals : every local variable, parameter, receiver and named result of the SDK packages gets a new name
+//	shift-lines   : a comment block is inserted at the top of every file (all line numbers move)
+//	invert-if     : `if c {A} else {B}` becomes `if !(c) {B} else {A}`
+//	hoist-init    : `if x := f(); c {…}` becomes `{ x := f(); if c {…} }`
+//	wrap-else     : `if c {…; return}; rest` becomes `if c {…; return} else {rest}`
+//	swap-operands : `a == b` / `a != b` comparisons are mirrored (b == a), `a < b` becomes `b > a`, etc.
 func refactorTree(dir, kind string) error {
 	normaliseCmp = false
 	p, err := Load(dir, true) // from source: nothing of the scratch copy is compiled into the build cache
